@@ -423,7 +423,7 @@ def gen(rng, tier):
     cover = {}
     thorough = tier == "thorough"
     # tape gradients of random programs (including the data point x)
-    for _ in range(400 if not thorough else 6000):
+    for _ in range(400 if not thorough else 5000):
         n = rng.randint(1, 4)
         while True:
             e = random_expr(rng, n, rng.randint(1, 5), allow_x=True, cdivv=rng.chance(0.1))
@@ -437,7 +437,7 @@ def gen(rng, tier):
     for i in range(ntraj):
         fam, n, e, theta = objective(rng, cover, allow_cdivv=rng.chance(0.08))
         if thorough:
-            K = rng.choice([200, 200, 100, 50, 400]) if i % 25 else 2000
+            K = rng.choice([200, 200, 100, 50, 400]) if i % 80 else 2000
         else:
             K = rng.choice([200, 100, 60, 40, 25]) if i % 10 else 200
         if rng.chance(0.5):
@@ -465,7 +465,7 @@ def gen(rng, tier):
         lines.append(line_sgd(a, m, mode == "nesterov", theta, range(1, 201), e))
         cover["sgd-earlystop:" + mode] = cover.get("sgd-earlystop:" + mode, 0) + 1
     # Levenberg-Marquardt
-    for i in range(60 if not thorough else 600):
+    for i in range(60 if not thorough else 450):
         fam, e, start, xs, ys = lm_problem(rng, cover)
         n = len(xs)
         K = 25 if n <= 20 else (12 if n <= 60 else 5)
@@ -476,13 +476,13 @@ def gen(rng, tier):
         if rng.chance(0.1):
             lines.append(lines[-1])
     # LM run to convergence on models linear in the parameters (least-squares solution reached)
-    for i in range(25 if not thorough else 200):
+    for i in range(25 if not thorough else 120):
         while True:
             fam, e, start, xs, ys = lm_problem(rng, cover)
             if fam.startswith("linear") and len(xs) <= 40:
                 break
         e1, e2, tau = rng.choice([(1e-6, 1e-6, 1e-2), (1e-9, 1e-9, 1e-3), (1e-10, 1e-12, 1e-2)])
-        lines.append(line_lm(e1, e2, tau, start, xs, ys, [400 if not thorough else 3000], e))
+        lines.append(line_lm(e1, e2, tau, start, xs, ys, [400 if not thorough else 1500], e))
         cover["lm-converge"] = cover.get("lm-converge", 0) + 1
     return lines, cover
 
@@ -801,7 +801,10 @@ def check_grad(t, reply_toks, F, stats):
     return None
 
 
-def check_lm(t, reply_toks, M, stats):
+COV_FACTOR = 4096.0
+
+
+def check_lm(t, reply_toks, M, stats, FI=None):
     import numpy as np
     e1, e2, tau = [h2f(v) for v in t[1:4]]
     p = int(t[4])
@@ -872,14 +875,29 @@ def check_lm(t, reply_toks, M, stats):
                     Ai = None
                 if Ai is not None:
                     s2 = rss / (n - p)
-                    scale = max(abs(float(s2 * Ai[a, b])) for a in range(p) for b in range(p))
-                    # J^T J is formed in floating point from n terms, the residuals/Jacobian carry eps-level
-                    # errors, and inversion amplifies by cond
-                    tol = 8192 * (n + p + 8) * EPS * cond * scale + 1e-300
+                    Amax = max(abs(float(Ai[a, b])) for a in range(p) for b in range(p))
+                    scale = float(s2) * Amax
+                    # (a) J^T J is formed in floating point from n terms and inverted: eps * cond, relative;
+                    # (b) the stored residuals y - f(theta, x) carry the rounding error of f (interval radius of a
+                    #     53-bit evaluation) which does not shrink with the residual: absolute error of rss.
+                    drss = mp.mpf(0)
+                    thI = [FI.num(v) for v in th]
+                    for i_, (x_, y_) in enumerate(zip(xs, ys)):
+                        fv, _ = P_.valgrad(thI, FI.num(x_), FI)
+                        if not IV.ok(fv):
+                            drss = None
+                            break
+                        fm, fr = IV.mid_rad(fv)
+                        dr = 4 * fr + 4 * EPS * (abs(y_) + abs(fm))
+                        drss += 2 * abs(r[i_]) * dr + dr * dr
+                    if drss is None:
+                        continue
+                    unit = (n + p + 8) * EPS * cond * scale + float(drss) / (n - p) * Amax * (1 + (n + p) * EPS * cond)
+                    tol = COV_FACTOR * unit + 1e-300
                     for a in range(p):
                         for b in range(p):
                             d = abs(cov[a * p + b] - float(s2 * Ai[a, b]))
-                            stats["covratio"] = max(stats.get("covratio", 0.0), d / (tol / 8192))
+                            stats["covratio"] = max(stats.get("covratio", 0.0), d / (unit + 1e-300))
                             if d > tol:
                                 return ("lm-covariance", "maxsteps=%d: cov[%d][%d] = %r, s^2 (J^T J)^-1 at the returned point = %r (cond %g)"
                                         % (k, a, b, cov[a * p + b], float(s2 * Ai[a, b]), cond))
@@ -978,7 +996,7 @@ def oracle(lines, impl):
             elif kind in ("adam", "sgd"):
                 r = check_traj(kind, t, toks, F, stats)
             elif kind == "lm":
-                r = check_lm(t, toks, M, stats)
+                r = check_lm(t, toks, M, stats, F)
             else:
                 r = None
         except Exception as ex:   # an oracle bug must not pass silently
